@@ -1,18 +1,11 @@
 package s0360
 
-type G3 struct {
-	F0x1x0x0 int64
-}
-
-type G2 struct {
-	F0x1x0 G3
-}
-
 type G1 struct {
-	F0x0 []int32
-	F0x1 []G2
+	F1x0 []int64
 }
 
 type T struct {
-	F0 G1
+	F0 *int32
+	F1 *G1
+	F2 uint32
 }
